@@ -183,7 +183,7 @@ pub fn main(ctx: &Ctx) -> i32 {
         };
         return replay(ctx, &body);
     }
-    let runs: u64 = ctx.tier.pick(2000, 40000);
+    let runs: u64 = ctx.tier.pick(20000, 400000);
     let res = crate::core::pool::run_jobs(runs, |idx| {
         let mut out = RunOut::default();
         if idx % 2 == 0 {
